@@ -39,6 +39,7 @@ impl<R: Read> HashingReader<R> {
 }
 
 impl<R: Read> Read for HashingReader<R> {
+	open spec fn rest(&self) -> Seq<u8> { self.reader.rest() }
 	open spec fn consumed(&self) -> Seq<u8> { self.reader.consumed() }
 	open spec fn hit_eof(&self) -> bool { self.reader.hit_eof() }
 	// representation invariant: while hashing is on, the hasher has been fed exactly the bytes delivered
